@@ -450,6 +450,13 @@ impl<'a, 'b> Gen<'a, 'b> {
     }
 
     fn range(&mut self) -> (char, char) {
+        if self.src.chance(8) {
+            // "truncation traps": one bound ASCII, the other a code point whose low byte is an ASCII value
+            // (U+0100, U+0141 'A', U+0261 'a', U+0800, U+10000); in either order (the reversed one matches nothing)
+            let wide = *self.src.choose(&['\u{100}', '\u{141}', '\u{261}', '\u{800}', '\u{10000}', '\u{17a}']);
+            let narrow = *self.src.choose(&['a', 'z', '~', 'A', '0', ' ']);
+            return if self.src.chance(128) { (wide, narrow) } else { (narrow, wide) };
+        }
         let a = self.lit_char();
         let kind = self.src.weighted(&[6, 3, 2, 1]);
         let b = match kind {
@@ -458,7 +465,7 @@ impl<'a, 'b> Gen<'a, 'b> {
             2 => self.lit_char(),
             _ => char::from_u32(a as u32 + self.src.range(100, 3000) as u32).unwrap_or(a),
         };
-        if a <= b || self.src.chance(5) {
+        if a <= b || self.src.chance(14) {
             // (rarely) a reversed range: accepted by the compiler, matches nothing
             (a, b)
         } else {
